@@ -15,6 +15,7 @@ SPEC = {
     "inject": [("apollo-parser", "src/parser/mod.rs", "parser/parser.rs", "verif_parser"),
                ("apollo-parser", "src/lexer/mod.rs", "parser/lexer.rs", "verif_lexer"),
                ("apollo-parser", "src/lexer/cursor.rs", "parser/cursor_access.rs", "pub(crate) verif_cursor")],
+    "support": ["parser/ref_lexer.rs", "parser/lexer_prefix.rs"],
     "unsafe_checks": False,
     "timeout": {"quick": 900, "thorough": 3000},
     "jobs": 10,
